@@ -87,6 +87,12 @@ def run(ctx):
                 continue
             ctx.saw(f)
             seeds = [(b, t) for b, t in f.calls() if t["f"].get("trait") == "serde::de::DeserializeSeed" and t["f"].get("name") == "deserialize"]
+            # exempt (one named symbol): the payload of a bare `Variant` scalar is a synthetic null located at the variant name
+            # (VA::bare_variant_payload, F14) — it is not a node of the document, there is no use-site / definition-site pair
+            def synthetic(t):
+                with f.deep():
+                    return sym_contains(f.sym_operand(t["args"][1]), lambda x: x[0] == "call" and x[1].endswith("::bare_variant_payload"))
+            seeds = [(b, t) for b, t in seeds if not synthetic(t)]
             for b, t in seeds:
                 n += 1
                 key = "C16:SIBLING:dual-location:%s#%d" % (f.npath.split("::")[-2].split(" ")[0].strip("<>") + "::" + f.name, n)
